@@ -540,3 +540,8 @@ MUTATIONS += [
 MUTATIONS += [
     dict(id="C16-repair-index-warmup-after-headers", prop="C16", file="crates/core/src/commands/repair/index.rs", old="    repo.warm_up_wait(pack_read_header.iter().map(|(id, _, _)| *id))?;\n\n    let indexer = Indexer::new(be.clone()).into_shared();\n    let p = repo.progress_counter(\"reading pack headers\");\n", new="    let indexer = Indexer::new(be.clone()).into_shared();\n    let p = repo.progress_counter(\"reading pack headers\");\n    if dry_run {\n        repo.warm_up_wait(pack_read_header.iter().map(|(id, _, _)| *id))?;\n    }\n"),
 ]
+
+HARMLESS += [
+    # progress reported before the write instead of after it
+    dict(id="H-C14-write-progress-first", prop="C14", file=RSF, old="                                drop(sizes_guard);\n", new="                                drop(sizes_guard);\n                                p.inc(size);\n"),
+]
